@@ -1200,7 +1200,7 @@ impl Prop for C18 {
          indexed connections that keep every gate at <= 2 peers, links with non-negative parameters), written as YAML by the harness' own \
          writer; plus single-point mutations (dangling type / inherit / gate / submodule / link, index == size, index on an atom, zero-sized gate \
          or submodule, inherit and submodule cycles, unequal cluster sizes, generic without arguments, arguments on a plain type, a generic or \
-         non-conforming or surplus argument, missing entry, malformed type clauses and field names). Oracle: (1) parsing + transform never \
+         non-conforming or surplus argument, missing entry, malformed type clauses and field names; a DeepConformance block: an interface with gates, a cluster, a connection with a link and submodules - one of an instantiated generic type holding a submodule cluster - checked against 2 conforming and 8 non-conforming arguments, the conforming ones built and compared incl. the connection path s/w/c/x through that cluster). Oracle: (1) parsing + transform never \
          panic (a panic located in des / des-net-utils is a violation) and every mutation is rejected with the listed error kind; (2) a valid \
          document elaborates, builds with a recording registry, and Sim::nodes, the registered symbol per path, every module's gates and every \
          gate's peers with their link metrics equal the harness' own denotation exactly. Non-trivial iff (valid document with inheritance AND \
